@@ -146,6 +146,11 @@ pub fn is_ignored(ign: &Ignores, q: &P, is_dir: bool) -> bool {
 
 // ---------------------------------------------------------------------------------------------
 
+/// tree paths whose every suffix is mirrored into the canary directory (directories for the proper
+/// prefixes, a file at the end): a superset of the path alphabets of C23/C24/C25/C27
+pub const CANARY_SKELETON: &[&str] = &["f", "g", "d/x", "d/y", "d/e/z", "h/i", "ig/a", "ig/b/c", "d/ig/q", "y", "d/c",
+                                       "d/e/w/v", "ig/b/k/m", "h/j/n"];
+
 pub struct Env {
     pub tw: TestWorkspace,
     pub root: PathBuf,
@@ -229,10 +234,35 @@ impl Env {
         std::fs::write(canary.join("x"), b"canary-x").unwrap();
         std::fs::write(canary.join("sub").join("z"), b"canary-z").unwrap();
         std::fs::write(canary.join("f"), b"canary-f").unwrap();
+        // mirror of the generators' directory skeleton (strengthened after seed C25): whatever
+        // directory component of a tree path is replaced by a symlink to the canary, the deeper
+        // directories (and a file at the path itself) already exist behind the link
+        for pass in 0..2 {
+            for s in CANARY_SKELETON {
+                let q = p(s);
+                for n in 0..q.len() {
+                    let suffix = &q[n..];
+                    if pass == 0 {
+                        if suffix.len() > 1 { std::fs::create_dir_all(suffix[..suffix.len() - 1].iter().fold(canary.clone(), |a, c| a.join(c))).unwrap(); }
+                    } else {
+                        let f = suffix.iter().fold(canary.clone(), |a, c| a.join(c));
+                        if std::fs::symlink_metadata(&f).is_err() { std::fs::write(&f, format!("canary {}\n", suffix.join("/"))).unwrap(); }
+                    }
+                }
+            }
+        }
         let canary_before = scan(&canary);
         Env { tw, root, canary, canary_before }
     }
     pub fn canary_intact(&self) -> bool { scan(&self.canary) == self.canary_before }
+    /// the entries of the canary directory that differ from its initial state (`path: before -> now`)
+    pub fn canary_diff(&self) -> String {
+        let now = scan(&self.canary);
+        let keys: BTreeSet<&P> = now.keys().chain(self.canary_before.keys()).collect();
+        keys.into_iter().filter(|k| now.get(*k) != self.canary_before.get(*k))
+            .map(|k| format!("{}: {} -> {}", show_p(k), self.canary_before.get(k).map_or("absent".into(), show_ent), now.get(k).map_or("absent".into(), show_ent)))
+            .collect::<Vec<_>>().join(", ")
+    }
 
     /// builds a (possibly conflicted) tree in the store
     pub fn build_tree(&self, t: &GenTree) -> MergedTree {
